@@ -37,6 +37,8 @@ func init() {
 			c.min("R-LOCKS-POOL/L2", 2)
 			c.ruleQueue()
 			c.ruleHeapIndex("lib/transaction")
+			c.ruleCmpUnsignedDiff("lib/transaction", "Less")
+			c.min("R-CMP/unsigned-diff", 1)
 			c.min("R-HEAPINDEX", 4)
 			c.min("R-FIFO", 3)
 			c.min("R-DUP", 4)
